@@ -102,6 +102,11 @@ func init() {
 				cfg.Steps += 80
 				mixStores(cfg, r, 0.5)
 			}
+			if r.Bool(0.2) {
+				// applications whose commit handler sometimes reports an error after
+				// having applied the block (the node never sees the response)
+				cfg.PAppError = 0.05
+			}
 			return cfg
 		},
 		run: clusterRun,
